@@ -16,6 +16,7 @@ import Gama.Lemmas.AdjXmlLemmas
 import Gama.Lemmas.G3LinReal
 import Gama.Lemmas.G3LinZenith
 import Gama.Lemmas.G3ParserLemmas
+import Gama.Lemmas.G3Assemble
 namespace Gama.Props.C19
 open Gama Gama.Neu Gama.G3Book Gama.AdjXml Gama.G3Lin Gama.Gen.G3Lin Gama.G3Parser
 open Matrix
@@ -299,6 +300,48 @@ example :
     (b₂.rows, b₂.idx.cols, b₂.floats, b₂.idx.index (isFreePar examplePoints) (2, .N),
       b₂.idx.index (isFreePar examplePoints) (0, .N), minx examplePoints b₂) = (6, 6, 18, 1, 0, [1, 2, 3]) := by
   decide
+
+/-- the sparse row the generated linearisation hands to `SparseMatrix::add_element` is its *symbolic* row
+    (coefficients keyed by point name and component, `symRow`) under the column indices of the book, whenever the
+    points the linearisation reads carry these indices — the link between the generated rows and `matOf` below -/
+theorem C19_rows_symbolic {ι : Type} (P : Pts ℝ) (names : Role → ι) (index : Par ι → Nat)
+    (h : ∀ r c, @GPt.index ℝ (P r) c = index (names r, c)) (r : GRow ℝ) :
+    evalRow P r = (symRow P names r).map fun e => (e.2, index e.1) :=
+  evalRow_eq_symRow P names index h r
+
+/-- **same results for any order of the input records** (index model + LS5 in one statement).  `o₁ ~ o₂` two
+    orders of the records, `n` = number of unknowns, `rows` the symbolic rows in the first order, `matOf n index rows`
+    the assembled design matrix (entry (r, k) = sum of the coefficients of row r whose unknown has index k+1).
+    There is a renumbering `e` of the unknowns such that for every permutation `ρ` of the rows: the design matrix of
+    the second input is the first with rows permuted and columns renumbered, and every least-squares solution
+    `(x, v, Φ)` of the first problem (any right-hand side, any weight matrix, regularisation subset `S`) is the
+    solution of the second one after renumbering the unknowns by `e`, permuting the residuals by `ρ`, with the
+    same `Φ` and `S` transported — whichever algorithm produced it (C01: each returns an `IsLSSolution`). -/
+theorem C19_order_solution {ι : Type} [DecidableEq ι] (P : Points ι) {o₁ o₂ : List (Obs ι)} (h : o₁.Perm o₂) {m : Nat}
+    (rows : Fin m → SRow ι) :
+    ∃ e : Fin (updateObservations P o₁).idx.cols ≃ Fin (updateObservations P o₁).idx.cols,
+      ∀ (ρ : Fin m ≃ Fin m),
+        matOf _ ((updateObservations P o₂).idx.index (isFreePar P)) (rows ∘ ρ) =
+          (matOf _ ((updateObservations P o₁).idx.index (isFreePar P)) rows).submatrix ρ e.symm ∧
+        ∀ (b : Fin m → ℝ) (W : Matrix (Fin m) (Fin m) ℝ) (S : Finset (Fin (updateObservations P o₁).idx.cols))
+          (x : Fin (updateObservations P o₁).idx.cols → ℝ) (v : Fin m → ℝ) (rtr : ℝ),
+          LS.IsLSSolution (matOf _ ((updateObservations P o₁).idx.index (isFreePar P)) rows) b W S x v rtr →
+          LS.IsLSSolution (matOf _ ((updateObservations P o₂).idx.index (isFreePar P)) (rows ∘ ρ)) (b ∘ ρ)
+            (W.submatrix ρ ρ) (S.map e.toEmbedding) (x ∘ e.symm) (v ∘ ρ) rtr :=
+  order_solution P h rows
+
+/-- non-vacuity of the inner implication: every design matrix has least-squares solutions in the sense used
+    (consistent right-hand side `A x`, zero residuals; `examplePoints` in two orders is the `Perm` instance above) -/
+example {m n : Nat} (A : Matrix (Fin m) (Fin n) ℝ) (x : Fin n → ℝ) (W : Matrix (Fin m) (Fin m) ℝ) :
+    LS.IsLSSolution A (A *ᵥ x) W ∅ x 0 0 :=
+  ⟨by simp, by simp, by simp, by simp⟩
+
+/-- **redundancy = rows − rank** (LS10): for the assembled design matrix `A` (any matrix with `dm_rows` rows and
+    `dm_cols` columns), if the reported defect is the nullity of `A` (`Adj::defect`, C01/C20) then the redundancy
+    coded in `Model::update_adjustment` is `dm_rows − rank A` -/
+theorem C19_redundancy_rank {ι : Type} (b : Book ι) (A : Matrix (Fin b.rows) (Fin b.idx.cols) ℝ) :
+    redundancy b (LS.nullity A) = (b.rows : ℤ) - (A.rank : ℤ) :=
+  redundancy_rank b A
 
 /-- the project-equation dump is faithful **up to the digits the printer keeps**: for every number format with
     `rd (fmt x) = q x` (`q` = rounding to the printed digits), `fmt (q x) = fmt x`, integers exact (`Codec.Printer`),
